@@ -81,11 +81,13 @@ ASSUMPTIONS = [
     'random seed").',
 ]
 
-CASE_TIMEOUT = 10   # seconds; a hang in sc3 is reported, not waited for
+CASE_TIMEOUT = 10   # CPU seconds; a hang in sc3 is reported, not waited for
 
 
 def setup(ctx):
-    global stm, bi, ptt, P
+    global stm, bi, ptt, P, OPEN_FINDINGS
+    from vlib.core import load_known
+    OPEN_FINDINGS = set(load_known(PROPERTY))
     from sc3.base import stream as stm
     from sc3.base import builtins as bi
     from sc3.seq import pattern as ptt
@@ -231,13 +233,16 @@ def _alarm(signum, frame):
 class guard:
     """A case that does not come back is a violation, not a stuck run."""
 
+    # CPU time of this process, not wall time: a loaded machine must not
+    # turn a slow case into a report
+
     def __enter__(self):
-        self.old = signal.signal(signal.SIGALRM, _alarm)
-        signal.setitimer(signal.ITIMER_REAL, CASE_TIMEOUT)
+        self.old = signal.signal(signal.SIGVTALRM, _alarm)
+        signal.setitimer(signal.ITIMER_VIRTUAL, CASE_TIMEOUT)
 
     def __exit__(self, *exc):
-        signal.setitimer(signal.ITIMER_REAL, 0)
-        signal.signal(signal.SIGALRM, self.old)
+        signal.setitimer(signal.ITIMER_VIRTUAL, 0)
+        signal.signal(signal.SIGVTALRM, self.old)
         return False
 
 
@@ -399,7 +404,7 @@ def _observed(case, v, quirks=()):
         with guard():
             info = _run_expr(case, v, model)
     except Hang:
-        v.fail('no_progress', f'no result within {CASE_TIMEOUT}s')
+        v.fail('no_progress', f'no result within {CASE_TIMEOUT}s of CPU time')
         info = {}
     except Exception as e:
         where = sc3_origin(e)
@@ -419,7 +424,9 @@ def _run_expr_known(case, v):
     info, model = _observed(case, v1)
     if v1.items:
         for ev, (quirk, kind) in QUIRKS.items():
-            if ev not in model.events:
+            # only while the finding is open (status "known"): once it is
+            # fixed every deviation is reported again
+            if ev not in model.events or kind not in OPEN_FINDINGS:
                 continue
             v2 = V()
             try:
@@ -429,7 +436,10 @@ def _run_expr_known(case, v):
                 exact = any(x.kind.startswith(f'sc3_raised:{q.args[0]}@')
                             for x in v1.items) and len(v1.items) == 1
             except Reject:
-                exact = False
+                # behind the deviating clause the expression reaches an
+                # input the documentation does not decide (or that never
+                # yields): it cannot be judged while the finding is open
+                raise
             if exact:
                 v.fail(kind, v1.items[0].detail)
                 return info
@@ -854,7 +864,7 @@ def run_seeded(case, v):
         try:
             return _run_seeded(case, v)
         except Hang:
-            v.fail('no_progress', f'no result within {CASE_TIMEOUT}s')
+            v.fail('no_progress', f'no result within {CASE_TIMEOUT}s of CPU time')
             return {}
 
 
@@ -940,7 +950,7 @@ def run_order(case, v):
         try:
             return _run_order(case, v)
         except Hang:
-            v.fail('no_progress', f'no result within {CASE_TIMEOUT}s')
+            v.fail('no_progress', f'no result within {CASE_TIMEOUT}s of CPU time')
             return {}
 
 
